@@ -470,3 +470,32 @@ M2('c06-root-path-helper-applied-by-create-environ-only', 'C06', 'R19', [
     {'file': _TH, 'old': _SCOPE_ROOT, 'new': "        scope['root_path'] = root_path\n"},
     {'file': _TH, 'old': _ENV_ROOT, 'new': "    root_path = _normalize_root_path(root_path or app or '')\n"},
     {'file': _TH, 'old': "def _make_cookie_values(cookies: CookieArg) -> str:\n", 'new': _NORM_HELPER + "def _make_cookie_values(cookies: CookieArg) -> str:\n"}])
+# pre-emptive hardening (same wave): each refactoring is silent on its own; with the mistake it must fire
+# the missing-key fall-back written `env.get(K) or <constant>` with a constant that is not the blank string
+M('c06-wsgi-query-string-get-or-question-mark', 'C06', 'R13', 'falcon/request.py', _QS_TRY,
+  _qs_precheck("env.get('QUERY_STRING') or '?'"))
+# `.get` with a non-blank default
+M('c06-wsgi-query-string-get-default-not-blank', 'C06', 'R13', 'falcon/request.py', _QS_TRY,
+  _qs_precheck("env.get('QUERY_STRING', 'x=1')"))
+# the trailing-slash guard named by a local (`strip = ...`) that only the conditional expression reads, one conjunct lost on ASGI
+M('c06-asgi-strip-guard-local-loses-root-exception', 'C06', None, 'falcon/asgi/request.py',
+  "        if (\n            self.options.strip_url_path_trailing_slash\n            and len(path) != 1\n            and path.endswith('/')\n        ):\n"
+  "            self.path = path[:-1]\n        else:\n            self.path = path\n",
+  "        strip = self.options.strip_url_path_trailing_slash and path.endswith('/')\n        self.path = path[:-1] if strip else path\n")
+# R22: the ASGI read loop steered by a control flag that is cleared on a SHORT read
+_ASGI_READ_LOOP = ("                    while True:\n                        data = await stream.read(self._STREAM_BLOCK_SIZE)\n"
+                   "                        if data == b'':\n                            break\n                        else:\n")
+M('c06-asgi-stream-flag-loop-cleared-on-short-block', 'C06', 'R22', _AA, _ASGI_READ_LOOP,
+  "                    more = True\n                    while more:\n                        data = await stream.read(self._STREAM_BLOCK_SIZE)\n"
+  "                        if data == b'':\n                            break\n                        else:\n"
+  "                            if len(data) < self._STREAM_BLOCK_SIZE:\n                                more = False\n")
+# R22: the bound method hoisted out of the loop, which then stops after a short block
+M('c06-asgi-stream-hoisted-read-stops-after-short-block', 'C06', 'R22', _AA, _ASGI_READ_LOOP,
+  "                    read = stream.read\n                    while True:\n                        data = await read(self._STREAM_BLOCK_SIZE)\n"
+  "                        if data == b'' or len(data) < self._STREAM_BLOCK_SIZE:\n                            break\n                        else:\n")
+# the `or '/'` default of the path written as a statement, with another constant on WSGI only
+M('c06-wsgi-path-default-statement-other-constant', 'C06', 'R13', 'falcon/request.py',
+  "        path: str = env['PATH_INFO'] or '/'\n", "        path: str = env['PATH_INFO']\n        if not path:\n            path = '/index'\n")
+# ... and applied under the wrong polarity (a non-empty path is replaced)
+M('c06-wsgi-path-default-statement-wrong-polarity', 'C06', 'R13', 'falcon/request.py',
+  "        path: str = env['PATH_INFO'] or '/'\n", "        path: str = env['PATH_INFO']\n        if path:\n            path = '/'\n")
